@@ -2,7 +2,7 @@ import RlibModel.Model.Rational
 /-! Line-protocol driver for engine `rational` (property C07).
 
 Case lines (`ty` ∈ i32 | i64 | i128):
-  `new:ty a b` · `neg:ty a b` · `floor:ty a b` · `ceil:ty a b` · `show:ty a b`
+  `newint:ty n` · `new:ty a b` · `neg:ty a b` · `floor:ty a b` · `ceil:ty a b` · `show:ty a b`
   `add|sub|mul|div|cmp|eq:ty a b c d`        (operands are `new(a,b)` and `new(c,d)`)
 Results: a fraction is printed as `a b` (the two public fields), orderings as `lt|eq|gt`, booleans as
 `true|false`, `show` as the `Display` string.  `S` is computed with core Lean's `Rat` and is `any` when the
@@ -11,25 +11,37 @@ open Rlib Rlib.Rational
 
 def showQ (x : Q) : String := s!"{x.a} {x.b}"
 
+/-- Outside the property's domain (`S any`) only "some panic" is compared, not which one comes first. -/
+def showOod {α} (f : α → String) : Except Panic α → String
+  | .ok a => f a
+  | .error _ => "panic"
+
+def answerDom {α} (dom : Bool) (f : α → String) (m : Except Panic α) (s : String) : String :=
+  if dom then answer (showExcept f m) s else answer (showOod f m) "any"
+
 def showOrd : Ordering → String
   | .lt => "lt" | .eq => "eq" | .gt => "gt"
 
 def unary (t : IntTy) (a b : Int) (f : Q → Except Panic Q) (sp : Rat → Q) : String :=
   let m := (do let x ← new (some t) a b; f x)
   let dom := b ≠ 0 ∧ inGuard t a ∧ inGuard t b
-  answer (showExcept showQ m) (if dom then showQ (sp (Rat.divInt a b)) else "any")
+  answerDom dom showQ m (showQ (sp (Rat.divInt a b)))
 
 def binary {α} (t : IntTy) (a b c d : Int) (f : Q → Q → Except Panic α) (sh : α → String)
     (sp : Rat → Rat → String) (extraDom : Bool := true) : String :=
   let m := (do let x ← new (some t) a b; let y ← new (some t) c d; f x y)
   let dom := b ≠ 0 ∧ d ≠ 0 ∧ extraDom ∧ inGuard t a ∧ inGuard t b ∧ inGuard t c ∧ inGuard t d
-  answer (showExcept sh m) (if dom then sp (Rat.divInt a b) (Rat.divInt c d) else "any")
+  answerDom dom sh m (sp (Rat.divInt a b) (Rat.divInt c d))
 
 def handle (line : String) : String :=
   match tokens line with
   | [] => badLine line
   | op :: rest =>
   match splitTy op, parseInts? rest with
+  | ("newint", some t), some [n] =>
+    -- `new_int` performs no arithmetic; in the domain (guarded n) it must be the canonical form of the integer n
+    if t.fits n then answerDom (inGuard t n) showQ (.ok (newInt n)) (showQ (ofRat (n : Rat)))
+    else answer "INVALID" "any"
   | (op, some t), some [a, b] =>
     match op with
     | "new" => unary t a b (fun x => pure x) ofRat
@@ -39,7 +51,9 @@ def handle (line : String) : String :=
     | "show" =>
       let m := new (some t) a b
       let dom := b ≠ 0 ∧ inGuard t a ∧ inGuard t b
-      answer (showExcept render m) (if dom then render (ofRat (Rat.divInt a b)) else "any")
+      -- the spec string is built from `Rat.num`/`Rat.den` directly, not through the model's `render`
+      let q := Rat.divInt a b
+      answerDom dom render m s!"{q.num}/{q.den}"
     | _ => badLine line
   | (op, some t), some [a, b, c, d] =>
     match op with
